@@ -92,18 +92,20 @@ PSTATES = ["none", "ready", "waiting_dwa", "disconnecting", "pre_ce"]
 ACTIONS = ["gone", "node_close", "nothing"]
 
 
-def readiness(s1: int, s2: int, victim: int, action: int) -> bool:
+def readiness(s1: int, s2: int, victim: int, action: int, realms: int) -> bool:
     """
-    pre: 0 <= s1 < len(PSTATES) and 0 <= s2 < len(PSTATES) and 0 <= victim <= 1 and 0 <= action < len(ACTIONS)
+    pre: 0 <= s1 < len(PSTATES) and 0 <= s2 < len(PSTATES) and 0 <= victim <= 1 and 0 <= action < len(ACTIONS) and 0 <= realms <= 2
     post: _
     """
     hx.begin()
     st = [PSTATES[hx.concretize_range(s1, 0, len(PSTATES))], PSTATES[hx.concretize_range(s2, 0, len(PSTATES))]]
     v = hx.concretize_range(victim, 0, 2)
     act = ACTIONS[hx.concretize_range(action, 0, len(ACTIONS))]
-    inputs = (s1, s2, victim, action)
+    inputs = (s1, s2, victim, action, realms)
+    # the two peers of the application live in one realm / in two realms / in two realms the other way round
+    rl = [None, [B.REALM, "partner.realm"], ["partner.realm", B.REALM]][hx.concretize_range(realms, 0, 3)]
     try:
-        b = B.Bench(n_peers=2, apps=((4, "auth"),))
+        b = B.Bench(n_peers=2, apps=((4, "auth"),), peer_realms=rl)
         n, app = b.node, b.apps[0]
         conns = [None, None]
         for i in (0, 1):
@@ -223,7 +225,7 @@ def specs(tier, seed, carve):
     q = tier == "quick"
     rnd = random.Random(seed)
     out = [dict(id="readiness", fn="readiness", params={}, timeout=600,
-                bound="2 peers configured for one application, each in {no connection, ready, awaiting DWA, disconnecting, pre-CE}; then one of them loses its connection (peer gone / node-initiated close / nothing)")]
+                bound="2 peers configured for one application (both in the node's realm / one of them in another realm), each in {no connection, ready, awaiting DWA, disconnecting, pre-CE}; then one of them loses its connection (peer gone / node-initiated close / nothing)")]
     out.append(dict(id="foreign_cea", fn="foreign_cea", params={}, timeout=300,
                     bound="two configured peers; the connection dialled to peer1 is answered by a CEA carrying peer2's identity, then lost (peer gone / node close)"))
     out.append(dict(id="takeover", fn="takeover", params={}, timeout=600,
